@@ -16,7 +16,7 @@ pub fn def() -> CheckDef {
         level: "exploration",
         assumptions: &["monotone simulated clock", "clients are in-process callers", "no storage errors are injected"],
         probes: &["probe.branch_pending", "probe.else_after_sibling_decided", "probe.needs_branch"],
-        quick_cases: 4000,
+        quick_cases: 8000,
         no_shrink: &[],
     }
 }
